@@ -17,7 +17,7 @@ use fclones::log::{Log, LogExt, ProgressBarLength, StdLog};
 use fclones::progress::{NoProgressBar, ProgressTracker};
 use fclones::report::{open_report, ReportHeader};
 use fclones::{dedupe, log_script, run_script, DedupeOp};
-use fclones::{group_files, write_report, Error};
+use fclones::{group_files, write_report_at, Error};
 
 /// Strips a red "error:" prefix and usage information added by clap.
 /// Removes ansi formatting.
@@ -116,9 +116,11 @@ fn run_group(mut config: GroupConfig, log: &dyn Log) -> Result<(), Error> {
     check_can_create_output_file(&config)?;
     configure_main_thread_pool(&config.thread_pool_sizes());
     log.info("Started grouping");
+    // Files modified from now on must be recognized as modified after the report
+    let start_time = chrono::Local::now();
     let results = group_files(&config, log).map_err(|e| Error::new(e.message))?;
 
-    write_report(&config, log, &results)
+    write_report_at(&config, log, &results, start_time)
         .map_err(|e| Error::new(format!("Failed to write report: {e}")))
 }
 
